@@ -80,7 +80,7 @@ theorem options_decl_roundtrip (p : XmlParams) {t : Tree} (hr : Representable en
       (options_lexOK env p.tokenParams hr hser) (fun e he => isEncName_encChar (henc d e hd he))
     obtain ⟨p0, hb0, ht, he⟩ := options_build env p.tokenParams hr hser (strLen (d.bytes ++ renderTokens ts'))
     obtain ⟨q, hq, h1, h2, _⟩ := build_erase_ok .document _ (strLen (d.bytes ++ renderTokens ts')) env ts' ts
-      her.symm p0 hb0
+      her.1.symm her.2 p0 hb0
     refine ⟨q, ?_, by rw [h1, ht], by rw [h2, he]⟩
     simp only [parseString, lexMode, hl, build_declaration_opt]
     exact hq
